@@ -12,9 +12,21 @@ tmpfs directory:
   transient k consecutive failures of the replace call then success, k in {1, 2, R-1, R} (R = the real retry bound
             read from atomic_replace's signature), x retryable errnos; also k failures then a kill around the
             next attempt
+  exhaust   the replace failing on all R attempts (retry budget exhausted) x retryable errnos, re-numbered on *its*
+            trace, x every later boundary x the fault alphabet: the path that runs when the retries are used up
+            (clean-up, any fall-back) is explored with a further kill / failing call like the ordinary path
   names     temp-name profiles (letters / all digits / underscores) as an environment answer
 
 A reader probe runs at every boundary of every execution (and on the final state).
+
+Seam completeness (mc.escape): a process-wide audit hook sees every open / rename / remove / mkdir / truncate / chmod /
+... of the interpreter.  One that touches the execution's directory without passing through a proxy ("escaped call":
+the write path reached the file system through another module, e.g. shutil, io.open, a helper) becomes a numbered
+boundary ``esc:<event>`` with the same fault alphabet (kill-before / kill-after / failing errno).  An escaped open
+*for writing* hands out a handle whose later use raises no audit event: from there to the end of the execution the
+return of every C call after which the destination contents or the directory listing changed (with no numbered call
+in between) is a further boundary ``esc:after-<function>`` (reader probe + kill point).  Nothing the write path does
+to the directory is outside the numbered space, whichever door it uses.
 
 Oracle (from the property statement + DESIGN "C08"):
   partial-visible    a destination read at any boundary / at the end is neither the complete old nor the
@@ -40,6 +52,7 @@ from typing import Any, Dict, List, Optional, Tuple
 
 from mc.runner import Run, Stats, HarnessError, h64
 from mc.faults import FaultEngine, KILL_BEFORE, KILL_AFTER, FAIL, FAIL_DROP, SHORT, PARTIAL_KILL, fault_tag
+from mc.escape import EscapeWatch, NeedFine, ALL as FINE_ALL, PREFIX as ESC
 
 import clematis.io.atomic as atomic_mod
 import clematis.io.log as log_mod
@@ -50,8 +63,8 @@ os.environ["SOURCE_DATE_EPOCH"] = "1700000000"  # the sidecar's created_at must 
 ERRNOS = ["EIO", "ENOSPC", "EACCES", "EBUSY", "PermissionError"]
 TRANSIENT_ERRNOS = ["EACCES", "EBUSY", "PermissionError", "EPERM"]
 CLEANUP_CALLS = {"Path.exists", "Path.is_file", "Path.unlink", "unlink", "remove", "Path.stat", "Path.lstat",
-                 "os.stat", "os.lstat"}
-REPLACE_LABELS = ("replace", "rename", "Path.replace", "Path.rename")
+                 "os.stat", "os.lstat", ESC + "os.remove"}
+REPLACE_LABELS = ("replace", "rename", "Path.replace", "Path.rename", ESC + "os.rename")
 
 BIG = 100 * 1024
 
@@ -150,6 +163,7 @@ def entries_present() -> List[str]:
 
 # ------------------------------------------------------------------ machinery per process
 _ENG: Optional[FaultEngine] = None
+_WATCH: Optional[EscapeWatch] = None
 _REF: Dict[Tuple[str, str], List[bytes]] = {}
 _MISTAKABLE: Dict[Tuple[Tuple[str, ...], Tuple[str, ...]], List[str]] = {}
 
@@ -167,6 +181,10 @@ def engine() -> FaultEngine:
         e.install(snap_mod, names=("os", "open"))
         e.install(log_mod, names=("os", "open"))
         _ENG = e
+        # whatever reaches the directory through any other door is caught by the audit hook (mc.escape)
+        global _WATCH
+        _WATCH = EscapeWatch(e)
+        _WATCH.install()
     return _ENG
 
 
@@ -289,11 +307,34 @@ def _sig_of(fired: List[Tuple[int, Dict[str, Any]]], trace: List[Dict[str, Any]]
 
 
 class Res:
-    __slots__ = ("outcome", "exc", "trace", "fired", "viol", "klass", "nprobes", "first_fault")
+    __slots__ = ("outcome", "exc", "trace", "fired", "viol", "klass", "nprobes", "first_fault", "fine", "escapes",
+                 "doors")
 
 
-def execute(entry: str, old_tag: str, new_tag: str, plan: List[Dict[str, Any]], names: str, wdir: str) -> Res:
+def execute(entry: str, old_tag: str, new_tag: str, plan: List[Dict[str, Any]], names: str, wdir: str,
+            fine: Any = ()) -> Res:
+    """One execution.  ``fine``: hint — the boundaries at which the fine-step observer must be on (``Res.fine`` of
+    the execution the plan was derived from).  An execution that meets an escaped call unprepared is thrown away and
+    repeated with the observer positioned there (see mc.escape: the numbering of the completed execution does not
+    depend on the hint)."""
+    if fine == FINE_ALL:
+        return _execute(entry, old_tag, new_tag, plan, names, wdir, FINE_ALL)
+    on_at = set(fine or ())
+    for _attempt in range(8):
+        try:
+            return _execute(entry, old_tag, new_tag, plan, names, wdir, on_at)
+        except NeedFine as nf:
+            if nf.at in on_at:
+                break
+            on_at.add(nf.at)
+    return _execute(entry, old_tag, new_tag, plan, names, wdir, FINE_ALL)
+
+
+def _execute(entry: str, old_tag: str, new_tag: str, plan: List[Dict[str, Any]], names: str, wdir: str,
+             fine: Any) -> Res:
     eng = engine()
+    watch = _WATCH
+    assert watch is not None
     news = reference_new(entry, new_tag, wdir)
     d = os.path.join(wdir, "x")
     _fresh(d)
@@ -335,13 +376,25 @@ def execute(entry: str, old_tag: str, new_tag: str, plan: List[Dict[str, Any]], 
     def probe(_eng, ent):
         nprobes[0] += 1
         look(ent["i"])
+        watch.boundary(ent)     # after the look: a kill that is due here must not hide the state it leaves
+
+    def fs_sig():
+        return tuple(_read(p) for p in dests), tuple(sorted(os.listdir(d)))
 
     eng.begin(plan, probe=probe, root=d, names=names)
+    watch.begin(d, fs_sig, fine)
     try:
         outcome, val = eng.run(sp["thunk"])
+        if watch.need_at is not None:   # the target swallowed the NeedFine signal
+            raise NeedFine(watch.need_at)
+        if watch.pending_die:   # kill-after of an escaped call that was the last thing the write did
+            watch.pending_die = False
+            eng.dead = True
+            outcome, val = "killed", None
         trace, fired = eng.trace, eng.fired
         unfired_at = [f for f in eng.unfired() if "at" in f]
     finally:
+        watch.end()
         eng.end()
     if unfired_at:
         raise HarnessError("nondeterministic replay: planned fault %r never reached in %s (trace %d calls)" % (
@@ -351,6 +404,7 @@ def execute(entry: str, old_tag: str, new_tag: str, plan: List[Dict[str, Any]], 
     r = Res()
     r.outcome, r.exc, r.trace, r.fired, r.nprobes = outcome, (val if outcome == "raise" else None), trace, fired, nprobes[0]
     r.first_fault = fired[0][0] if fired else None
+    r.fine, r.escapes, r.doors = (fine if fine == FINE_ALL else sorted(fine)), watch.escapes, list(watch.doors)
     clauses: List[Tuple[str, str, bool]] = []  # (clause, detail, before_any_fault)
     for cl, (bidx, detail) in sorted(pv.items()):
         # the boundary probe before call i sees the state after calls < i; the fault at index f fires after probe f
@@ -453,10 +507,11 @@ def transient_plans(trace: List[Dict[str, Any]], R: int) -> List[List[Dict[str, 
 
 
 def minimise(combo: Tuple[str, str, str], plan, names: str, r: Res, w: str):
-    """A violating plan whose proper sub-plan (no fault / one of its two faults alone) already violates belongs to
-    the sub-plan: report that one (smaller witness, and one signature per root cause instead of one per bystander
-    fault).  Faults are re-addressed by (calling function, label, occurrence within that function) so that they keep
-    their meaning when another one is dropped."""
+    """A violating plan whose proper sub-plan (no fault / one of its two faults alone / for a repeated failure
+    followed by one different fault: that fault alone, the repeated failure alone) already violates belongs to the sub-plan: report that one (smaller witness,
+    and one signature per root cause instead of one per bystander fault).  Faults are re-addressed by (calling
+    function, label, occurrence within that function) so that they keep their meaning when another one is dropped
+    (and whether the execution is coarse or fine)."""
     if not r.viol or not plan:
         return r.viol, plan
     addr = []
@@ -471,6 +526,8 @@ def minimise(combo: Tuple[str, str, str], plan, names: str, r: Res, w: str):
     cands: List[List[Dict[str, Any]]] = [[]]
     if len(addr) == 2:
         cands += [[addr[0]], [addr[1]]]
+    elif len(addr) > 2 and (addr[-1]["name"], fault_tag(addr[-1])) != (addr[0]["name"], fault_tag(addr[0])):
+        cands += [[addr[-1]], addr[:-1]]    # a repeated failure followed by one different fault
     for cand in cands:
         rc = execute(combo[0], combo[1], combo[2], cand, names, w)
         if rc.viol:
@@ -484,6 +541,11 @@ def _account(st: Stats, combo: Tuple[str, str, str], plan, names: str, r: Res, w
     st.add("validated")
     st.add("executions")
     st.add("reader_probes", r.nprobes + 1)
+    if r.escapes:
+        st.add("executions_with_escaped_calls")
+        st.add("escaped_calls", r.escapes)
+        for door in r.doors:
+            st.distinct("escape_doors", door)
     st.distinct("states", (entry, old_tag, new_tag, names, plan))
     st.distinct("outcomes", r.klass)
     if r.fired:
@@ -493,6 +555,8 @@ def _account(st: Stats, combo: Tuple[str, str, str], plan, names: str, r: Res, w
         viol, vplan = minimise(combo, plan, names, r, w)
         st.add("minimisation_runs")
     case = {"entry": entry, "old": old_tag, "new": new_tag, "plan": vplan, "names": names}
+    if r.fine:
+        case["fine"] = r.fine   # hint only: where the fine-step observer is needed
     if r.viol:
         # the runner keeps the case with the shortest JSON per signature: make "most direct entry point, old=old,
         # new=small" the shortest, so the stored witness is the minimal one (the pad has no other meaning)
@@ -512,10 +576,10 @@ def _wdir(scratch: str) -> str:
 
 
 def _single_worker(chunk, st: Stats, scratch: str):
-    """chunk: [(combo, plan, names, family)]"""
+    """chunk: [(combo, plan, names, family, fine)]"""
     w = _wdir(scratch)
-    for combo, plan, names, family in chunk:
-        r = execute(combo[0], combo[1], combo[2], plan, names, w)
+    for combo, plan, names, family, fine in chunk:
+        r = execute(combo[0], combo[1], combo[2], plan, names, w, fine)
         _account(st, combo, plan, names, r, w)
         st.add("plans_" + family)
         if family == "single" and r.viol and r.fired:
@@ -528,10 +592,10 @@ def _single_worker(chunk, st: Stats, scratch: str):
 
 
 def _pair_worker(chunk, st: Stats, scratch: str, bad: frozenset, errnos2: List[str]):
-    """chunk: [(combo, first_fault)] — re-run the single, then every later boundary of *its* trace x alphabet."""
+    """chunk: [(combo, first_fault, fine)] — re-run the single, then every later boundary of *its* trace x alphabet."""
     w = _wdir(scratch)
-    for combo, first in chunk:
-        r1 = execute(combo[0], combo[1], combo[2], [first], "alpha", w)
+    for combo, first, fine in chunk:
+        r1 = execute(combo[0], combo[1], combo[2], [first], "alpha", w, fine)
         if r1.viol:
             st.add("pairs_subsumed_first_fault_already_fails")
             continue
@@ -542,12 +606,49 @@ def _pair_worker(chunk, st: Stats, scratch: str, bad: frozenset, errnos2: List[s
                     st.add("pairs_subsumed_second_fault_already_fails")
                     continue
                 plan = [first, f2]
-                r = execute(combo[0], combo[1], combo[2], plan, "alpha", w)
+                r = execute(combo[0], combo[1], combo[2], plan, "alpha", w, r1.fine)
                 _account(st, combo, plan, "alpha", r, w)
                 st.add("plans_pair")
         if len(st.samples) < 1 and len(r1.trace) > i1 + 1:
             st.sample({"entry": combo[0], "old": combo[1], "new": combo[2], "first": _plan_str([first]),
                        "trace_after_first": [e["name"] for e in r1.trace[i1 + 1:]][:12]})
+    shutil.rmtree(w, ignore_errors=True)
+
+
+def exhaust_firsts(trace: List[Dict[str, Any]], R: int, every_write: bool) -> List[List[Dict[str, Any]]]:
+    """The replace fails on every one of its R attempts, per retryable errno — for the first replace of the
+    fault-free trace, with ``every_write`` for each of them (composite writers replace more than one file)."""
+    starts = [(e["name"], e["occ"]) for e in trace if e["name"] in REPLACE_LABELS]
+    if not every_write:
+        starts = starts[:1]
+    return [[{"name": lab, "occ": o, "kind": FAIL, "errno": e} for o in range(o1, o1 + R)]
+            for lab, o1 in starts for e in TRANSIENT_ERRNOS]
+
+
+def _exhaust_worker(chunk, st: Stats, scratch: str, errnos2: List[str]):
+    """chunk: [(combo, first_plan)] — run the exhausted-retries plan (itself judged in the transient family), then
+    every boundary after its last failure, on *its* trace, x the fault alphabet."""
+    w = _wdir(scratch)
+    for combo, first in chunk:
+        r1 = execute(combo[0], combo[1], combo[2], first, "alpha", w)
+        if r1.viol:
+            st.add("exhaust_subsumed_first_plan_already_fails")
+            continue
+        if len(r1.fired) != len(first):
+            # the implementation gave up earlier than its declared budget: the remaining failures never happen
+            st.add("exhaust_budget_not_reached")
+        if not r1.fired:
+            continue
+        i1 = r1.fired[-1][0]
+        for ent in r1.trace[i1 + 1:]:
+            for f2 in faults_at(ent, errnos2):
+                plan = first[:len(r1.fired)] + [f2]
+                r = execute(combo[0], combo[1], combo[2], plan, "alpha", w, r1.fine)
+                _account(st, combo, plan, "alpha", r, w)
+                st.add("plans_exhaust")
+        if len(st.samples) < 1 and len(r1.trace) > i1 + 1:
+            st.sample({"entry": combo[0], "old": combo[1], "new": combo[2], "first": _plan_str(first),
+                       "trace_after_exhaustion": [e["name"] for e in r1.trace[i1 + 1:]][:12]})
     shutil.rmtree(w, ignore_errors=True)
 
 
@@ -567,6 +668,8 @@ def run(run: Run) -> None:
 
     # ---- golden runs (parent): number the calls, check determinism and that raw writes are seen
     golden: Dict[Tuple[str, str, str], List[Dict[str, Any]]] = {}
+    gfine: Dict[Tuple[str, str, str], Any] = {}
+    doors: set = set()
     lens = []
     for c in combos:
         reference_new(c[0], c[2], w)  # also warms the cache that forked workers inherit
@@ -579,12 +682,16 @@ def run(run: Run) -> None:
         if not r1.trace:
             raise HarnessError("no I/O call of %s goes through the proxies (seams gone?)" % c[0])
         new_len = len(reference_new(c[0], c[2], w)[0])
-        if new_len and not any(e["writer"] or e["name"] == "tmpfile.write" for e in r1.trace):
-            raise HarnessError("raw writes of %s escape the proxies" % c[0])
+        if new_len and not any(e["writer"] or e["name"] == "tmpfile.write" or e["name"].startswith(ESC)
+                               for e in r1.trace):
+            raise HarnessError("raw writes of %s escape the proxies and the audit hook" % c[0])
         golden[c] = r1.trace
+        gfine[c] = r1.fine
+        doors.update(r1.doors)
         lens.append(len(r1.trace))
     run.notes["calls_per_fault_free_write_min_max"] = [min(lens), max(lens)]
     run.notes["retry_bound_R"] = R
+    run.notes["escape_doors_fault_free"] = sorted(doors)
     run.notes["retry_bound_source"] = Rsrc
     run.notes["entry_points"] = present
     run.notes["call_labels_atomic_write_bytes"] = [e["name"] for e in golden[("atomic_write_bytes", "old", "small")]]
@@ -593,23 +700,24 @@ def run(run: Run) -> None:
     name_profiles = ["alpha", "digits", "under"] if thorough else ["alpha", "digits"]
     items1 = []
     for c in combos:
-        items1.append((c, [], "alpha", "golden"))
+        gf = gfine[c]
+        items1.append((c, [], "alpha", "golden", gf))
         for ent in golden[c]:
             for f in faults_at(ent, ERRNOS + (["EPERM", "EROFS"] if thorough else [])):
-                items1.append((c, [f], "alpha", "single"))
+                items1.append((c, [f], "alpha", "single", gf))
         for p in transient_plans(golden[c], R):
             if not thorough and c[2] == "big":
                 continue
-            items1.append((c, p, "alpha", "transient"))
+            items1.append((c, p, "alpha", "transient", gf))
         for prof in name_profiles[1:]:
             # the temp name is an environment answer: fault-free + every kill + every EIO under the other profiles
             if c[2] == "big":
                 continue
-            items1.append((c, [], prof, "names"))
+            items1.append((c, [], prof, "names", gf))
             for ent in golden[c]:
-                items1.append((c, [{"at": ent["i"], "kind": KILL_AFTER}], prof, "names"))
+                items1.append((c, [{"at": ent["i"], "kind": KILL_AFTER}], prof, "names", gf))
                 if ent["failable"]:
-                    items1.append((c, [{"at": ent["i"], "kind": FAIL, "errno": "EIO"}], prof, "names"))
+                    items1.append((c, [{"at": ent["i"], "kind": FAIL, "errno": "EIO"}], prof, "names", gf))
     run.pmap(_single_worker, items1, extra=(run.scratch,))
     bad = frozenset(run.sets.get("badkeys", ()))
 
@@ -625,19 +733,37 @@ def run(run: Run) -> None:
         for ent in golden[c]:
             for f in faults_at(ent, errnos1):
                 if f["kind"] in (FAIL, SHORT):
-                    items2.append((c, f))
+                    items2.append((c, f, gfine[c]))
     run.pmap(_pair_worker, items2, extra=(run.scratch, bad, errnos2))
+
+    # ---- phase 3: retry budget exhausted (R failures of the replace), then any fault at any later boundary
+    items3 = []
+    for c in combos:
+        if not thorough and (c[2] != "small" or (c[1] == "absent" and c[0] != "atomic_write_bytes")):
+            continue    # quick: same restriction as the pairs
+        for first in exhaust_firsts(golden[c], R, every_write=thorough):
+            items3.append((c, first))
+    run.pmap(_exhaust_worker, items3, extra=(run.scratch, errnos2))
     shutil.rmtree(w, ignore_errors=True)
+    run.notes["escaped_calls_seen"] = int(run.n.get("escaped_calls", 0))
 
     run.rule = ("entry point x old in {absent, old} x new in {empty, small, 100 KiB} (composite snapshot writers: "
                 "{small, 100 KiB}); per combination: fault-free run numbers the I/O boundaries, then every single "
                 "kill-before/kill-after, every failing call x {%s}, every raw write short(n)/partial(n)+kill for "
                 "n in {1, len/2, len-1}; every pair (fail|short first, any fault at any later boundary of the "
                 "re-numbered trace%s); replace failing k in {1,2,%d,%d} times x {%s} (+ kill around attempt k+1); "
-                "temp-name profiles %s; reader probe at every boundary.  non-trivial = at least one fault fired" % (
+                "replace (%s) failing on all %d attempts x {%s}, then any fault of the alphabet at any later boundary "
+                "of that re-numbered trace%s; temp-name profiles %s; reader probe at every boundary.  Boundaries = every "
+                "call through the proxied module globals + every audited file-system call under the directory made "
+                "through any other door (esc:*, same alphabet) + from the first such open-for-writing on every "
+                "C-call return after which the destination contents / listing changed without a numbered call in "
+                "between (kill point + reader).  non-trivial = at least one fault fired" % (
                     ",".join(ERRNOS + (["EPERM", "EROFS"] if thorough else [])),
                     "" if thorough else "; quick: second errno in {EIO,EACCES,PermissionError}, pairs on (old, small) only, + (absent, small) for atomic_write_bytes",
-                    R - 1, R, ",".join(TRANSIENT_ERRNOS), name_profiles))
+                    R - 1, R, ",".join(TRANSIENT_ERRNOS),
+                    "of every file a composite writer replaces" if thorough else "the first of the write",
+                    R, ",".join(TRANSIENT_ERRNOS),
+                    "" if thorough else " (quick: same restriction as the pairs)", name_profiles))
     if missing:
         run.notes["entry_points_absent_in_this_tree"] = missing
     run.assume("rename(2)/os.replace itself is atomic on the local file system; process death, not power loss: "
@@ -648,6 +774,14 @@ def run(run: Run) -> None:
     run.assume("zstandard is not installed: _write_lines is explored with codec none only")
     run.assume("pairs whose first or second fault alone already violates the oracle are not re-run "
                "(counted in pairs_subsumed_*): the smaller plan is the witness")
+    run.assume("file-system calls that by-pass the proxies are recognised by their audit event (open, os.rename/"
+               "replace, os.remove/unlink, os.rmdir, os.mkdir, os.truncate, os.chmod, os.chown, os.link, os.symlink, "
+               "os.utime) with a path under the execution's directory; the un-audited use of a handle opened that "
+               "way (write / sendfile / truncate) is observed and killed at the granularity of C calls made from "
+               "Python code (no short or partial write inside one such call); this run saw %d escaped calls" %
+               int(run.n.get("escaped_calls", 0)))
+    run.assume("exhausted retries: all R failures carry the same errno; the further fault lies after the last "
+               "failed attempt")
     run.assume("readers = _pick_latest_snapshot_path (on the directory and on the strays alone) for snapshot "
                "directories, glob *.jsonl for log directories, both for the generic atomic_write_* entry points")
 
@@ -656,7 +790,8 @@ def replay(case) -> List[Tuple[str, str]]:
     import tempfile
     w = tempfile.mkdtemp(prefix="c08r", dir="/dev/shm" if os.path.isdir("/dev/shm") else None)
     try:
-        r = execute(case["entry"], case["old"], case["new"], case["plan"], case.get("names", "alpha"), w)
+        r = execute(case["entry"], case["old"], case["new"], case["plan"], case.get("names", "alpha"), w,
+                    case.get("fine") or ())
         return list(r.viol)
     finally:
         shutil.rmtree(w, ignore_errors=True)
